@@ -163,6 +163,59 @@ def floatFromInt (n : Int) : Bits :=
   else if n < 0 then UInt64.ofNat (signBit + encodeMagnitude n.natAbs)
   else UInt64.ofNat (encodeMagnitude n.natAbs)
 
+/-- exact value of a finite pattern as numerator / denominator (denominator a power of two) -/
+def finiteValue (b : Bits) : Int × Nat :=
+  let e := expField b
+  let m := mantissa b
+  let mag : Nat × Nat :=
+    if e = 0 then (m, 2 ^ 1074)
+    else if e ≥ 1075 then ((2 ^ 52 + m) * 2 ^ (e - 1075), 1)
+    else (2 ^ 52 + m, 2 ^ (1075 - e))
+  (if sign b then -(mag.1 : Int) else (mag.1 : Int), mag.2)
+
+
+/-! ### `floor`, `ceil`, `round` (`Instr::Floor/Ceil/Round` = `f64::floor/ceil/round`) and the other math instructions
+
+`floor`, `ceil` and `round` (half away from zero) are exact functions of the operand, so they are
+modelled completely: the exact rational value is rounded to an integer with integer division and
+converted back (exactly: the integer has at most 53 bits).  Patterns with exponent field ≥ 1075
+(`|x| ≥ 2^52`, ±inf) are already integral; a zero result keeps the operand's sign; a NaN stays a
+(quiet) NaN.  `sqrt sin cos tan asin acos atan log log2 log10 atan2` are libm / IEEE functions: a
+parameter, like the arithmetic. -/
+
+inductive Rounding where
+  | floor | ceil | round
+  deriving Repr, DecidableEq
+
+/-- the integer a rational `n/d` (`d > 0`) is rounded to -/
+def roundInt : Rounding → Int → Nat → Int
+  | .floor, n, d => n / d
+  | .ceil, n, d => -((-n) / d)
+  | .round, n, d => if n ≥ 0 then (2 * n + d) / (2 * d) else -((2 * (-n) + d) / (2 * d))
+
+/-- a NaN operand comes back quiet: mantissa bit 51 set (it is already set in every NaN the
+    hardware generates) -/
+def quiet (x : Bits) : Bits := if mantissa x < 2 ^ 51 then UInt64.ofNat (x.toNat + 2 ^ 51) else x
+
+def roundBits (mode : Rounding) (x : Bits) : Bits :=
+  if isNaN x then quiet x
+  else if expField x ≥ 1075 then x
+  else
+    let v := finiteValue x
+    let n := roundInt mode v.1 v.2
+    if n = 0 then (if sign x then 0x8000000000000000 else 0) else floatFromInt n
+
+inductive Math1 where
+  | sqrt | sin | cos | tan | asin | acos | atan | log | log2 | log10 | floor | ceil | round
+  deriving Repr, DecidableEq
+
+/-- the unary math instructions; `libm` stands for the host's `f64::sqrt`, `sin`, … `log10` -/
+def math1 (libm : Math1 → Bits → Bits) : Math1 → Bits → Bits
+  | .floor, x => roundBits .floor x
+  | .ceil, x => roundBits .ceil x
+  | .round, x => roundBits .round x
+  | f, x => libm f x
+
 /-! ### unary minus: `PushFloat -0.0; x; SubFloat` (D33 — repaired behaviour: subtracting from
 `-0.0` is IEEE negation for every non-NaN operand, zeros included) -/
 
